@@ -379,3 +379,82 @@ func (m *VerifIntMap) Dump() (dist, keys []int, vals []Value) {
 	}
 	return
 }
+
+// ---- run-level correspondence ----------------------------------------------
+
+// VerifGlobal describes one global slot before the compiled code runs.
+type VerifGlobal struct {
+	Key    string
+	Tag    int
+	Num    float64
+	Str    string
+	HasObj bool
+	IsFunc bool
+}
+
+func verifGlobals(g *lookup) []VerifGlobal {
+	res := make([]VerifGlobal, g.Len())
+	for i := range res {
+		v := g.Read(i)
+		e := VerifGlobal{Key: g.Key(i), Tag: int(v.t), Num: v.num, HasObj: v.value != nil}
+		if s, ok := v.value.(stringT); ok {
+			e.Str = string(s)
+		}
+		_, e.IsFunc = v.value.(*funcT)
+		res[i] = e
+	}
+	return res
+}
+
+// VerifLoadTrace is VM.Load with the optimizer flag threaded through, returning
+// the compiled code and a snapshot of the globals taken after compilation and
+// before the code runs.
+func VerifLoadTrace(v *VM, sys fs.FS, arg string, optimize bool) (ins []VerifIns, slots int, globals []VerifGlobal, err error) {
+	f := loadPackage
+	if strings.HasSuffix(arg, ".go") {
+		f = loadFile
+	}
+	pkgs, err := f(sys, arg)
+	if err != nil {
+		return nil, 0, nil, fmt.Errorf("error in load: %w", err)
+	}
+	codes, slots, err := compilePkgs(v.globals, pkgs, optimize)
+	if err != nil {
+		return nil, 0, nil, fmt.Errorf("error in compile: %w", err)
+	}
+	ins = verifIns(v.globals, codes)
+	globals = verifGlobals(v.globals)
+	rets, err := v.run(codes, slots)
+	if err != nil {
+		return ins, slots, globals, fmt.Errorf("error in run: %w", err)
+	}
+	if len(rets) > 0 {
+		return ins, slots, globals, fmt.Errorf("unexpected returns: %v", rets)
+	}
+	return ins, slots, globals, nil
+}
+
+// VerifEvalTrace is VM.Eval (no imports) with the optimizer flag, returning code and globals snapshot.
+func VerifEvalTrace(v *VM, src string, optimize bool) (ins []VerifIns, slots int, globals []VerifGlobal, rets []Value, err error) {
+	toks, err := tokenize("in", src)
+	if err != nil {
+		return nil, 0, nil, nil, fmt.Errorf("error in tokenize: %w", err)
+	}
+	tree, err := parse(toks)
+	if err != nil {
+		return nil, 0, nil, nil, fmt.Errorf("error in parse: %w", err)
+	}
+	cmp := &compiler{Globals: v.globals, Locals: newLookup(), Imports: map[string]string{},
+		Optimize: optimize, PackageName: "main", ExportName: "main"}
+	codes, slots, err := cmp.run(tree)
+	if err != nil {
+		return nil, 0, nil, nil, fmt.Errorf("error in compile: %w", err)
+	}
+	ins = verifIns(v.globals, codes)
+	globals = verifGlobals(v.globals)
+	rets, err = v.run(codes, slots)
+	if err != nil {
+		return ins, slots, globals, nil, fmt.Errorf("error in run: %w", err)
+	}
+	return ins, slots, globals, rets, nil
+}
